@@ -17,6 +17,11 @@ LEVEL_TEXT = ("proof + fault enumeration: Coq theorems over the disk-level model
 LEVEL_NOTE = ("The theorems are about Model/FileDisk.v, a hand-written model of pkg/storage/file (fstore.go, mbox.go, fmessage.go); "
               "encoding/gob is a section variable with the round-trip hypothesis only; the file system is modelled as a path map "
               "with atomic create/rename/unlink/rmdir (POSIX), a process kill (no power loss: written data survives without fsync). "
+              "STEP ORDER TIED TO THE SOURCE: go/cmd/pins/c11_steps.go reads, on every run, the order of crash points, mutating os calls and helper "
+              "calls inside AddMessage, MarkSeen, RemoveMessage, PurgeMessages, newMessage, removeMessage, purge, writeIndex, createDir, removeDir, "
+              "removeDirIfEmpty (coq/Gen/FileSteps.v); file_steps_pinned proves the skeletons the model was written from equal them (conditions by "
+              "position, not text) and model_steps_from_skeleton that the model's step lists are assembled from those crash points in that call "
+              "order — a reordering in the source makes the theorem fail to re-check. "
               "CRASH POINTS = every mutating os call on the non-error paths of the three files, one verifhook.Point immediately before each, "
               "one model step each: AddMessage os.Create(raw) [add.create], io.Copy into the bufio.Writer [add.write], Writer.Flush [add.flush], "
               "File.Close [add.close]; writeIndex os.Create(index.gob.tmp) [index.create], gob Encode of name+messages [index.write], Flush "
